@@ -40,3 +40,22 @@ Print Assumptions C04_prefix_weight_semantics.
 Theorem C04_priority_rescaled : span_first priority_rescaled order_max_rescaled /\ order_first priority_rescaled order_max_rescaled.
 Proof. split; [exact rescaled_span_first|exact rescaled_order_first]. Qed.
 Print Assumptions C04_priority_rescaled.
+
+
+(* Rescaling (earley_rescaled.py keeps every chart column multiplied by a running coefficient): whatever
+   non-zero coefficient c(ctx) the unnormalised next-token weights of a context carry, the normalised
+   next-token distribution and every chain-rule probability are those of the unscaled weights. *)
+From GV.proofs Require RescaleProofs.
+Theorem C04_rescaling_invariant : forall (F : FR) (V : list nat) (eos : nat) (c : list nat -> F)
+    (nw : list nat -> nat -> F),
+  (forall ctx t, c ctx <> s0 -> zsum V eos nw ctx <> s0 ->
+     p_next V eos (RescaleProofs.scaled F c nw) ctx t = p_next V eos nw ctx t) /\
+  (forall xs ctx,
+     (forall k, k <= length xs -> c (ctx ++ firstn k xs) <> s0 /\ zsum V eos nw (ctx ++ firstn k xs) <> s0) ->
+     chain V eos (RescaleProofs.scaled F c nw) ctx xs = chain V eos nw ctx xs).
+Proof.
+  intros F V eos c nw. split.
+  - intros ctx t Hc Hz. exact (RescaleProofs.p_next_rescale_invariant F V eos c nw ctx t Hc Hz).
+  - intros xs ctx H. exact (RescaleProofs.chain_rescale_invariant F V eos c nw xs ctx H).
+Qed.
+Print Assumptions C04_rescaling_invariant.
